@@ -346,6 +346,11 @@ class Program:
 
     def func(self, relpath: str, qual: str) -> FunctionInfo:
         mod = self.module(relpath)
+        if "<locals>" in qual:
+            for fi in mod.all_functions:
+                if fi.qual == qual:
+                    return fi
+            raise AnalysisError(f"anchor function missing: {relpath}::{qual}")
         if "." in qual:
             cname, mname = qual.split(".", 1)
             c = mod.classes.get(cname)
